@@ -89,6 +89,7 @@ struct group
     bool start_tls = false;              // T: after these replies the server starts the TLS handshake on the control connection
     bool garbage = false;                // G: ... sends garbage instead of a ServerHello and closes
     bool close_after = false;            // X: ... closes the control connection
+    bool reset_after = false;            // R: ... resets the control connection (close with SO_LINGER 0: the client sees ECONNRESET)
     bool bad_cert = false;               // B: the TLS handshake started by T presents a certificate of an unknown CA
 };
 
@@ -101,6 +102,7 @@ inline bool parse_group(const std::string & s, group & g)
         else if (it == "T") g.start_tls = true;
         else if (it == "G") g.garbage = true;
         else if (it == "X") g.close_after = true;
+        else if (it == "R") { g.close_after = true; g.reset_after = true; }
         else if (it == "B") g.bad_cert = true;
         else if (it[0] == 'c') g.cuts = dotlist(it.substr(1));
         else if (it[0] == 'D')
